@@ -369,6 +369,12 @@ impl<'a, B: SddBuilder<'a>> Session<'a, B> {
                 Ok(ptr) => {
                     let mut newn = vec![];
                     let root = self.ids.ptr(ptr, &mut newn);
+                    // uncompressed builders can return nodes with tens of thousands of elements: such a result ends the segment
+                    // (the event is not logged; what was logged so far remains a complete history of this builder)
+                    let biggest = newn.iter().map(|n| n[3].as_array().map_or(0, |a| a.len())).max().unwrap_or(0);
+                    if biggest > 64 || newn.len() > 400 {
+                        return false;
+                    }
                     let old_in_slot = self.pool[res_slot];
                     self.pool[res_slot] = ptr;
                     self.next_slot += 1;
